@@ -1,5 +1,5 @@
 """C01 — encrypt-then-decrypt returns the message up to the configured bounded error."""
-from vlib import common, corepipe
+from vlib import common, corepipe, kspipe
 from vlib.common import log
 
 LEVEL = "model_checking"
@@ -13,6 +13,13 @@ def run(rep, tier):
     events, bad = corepipe.run_and_validate(rep, wd, progs, "c01", shards=8 if quick else 12)
     nb = corepipe.report(rep, events, bad, {"sem"}, "c01")
     steps = [e for e in events if e["ev"] == "step"]
+    # LWE ciphertexts: encrypt ; decrypt behaviours validated by KsFamily.LweEncDecOK (phase recomputed by TLC)
+    lpath, ln_all, ln = kspipe.gen_descs(rep, wd, "Core/Gen_C01L", "Core/Gen_C01L_quick" if quick else "Core/Gen_C01L_thorough", "c01l", per_op=1200 if quick else 0)
+    levents, lbad = kspipe.run_and_validate(rep, wd, lpath, "c01l", shards=8)
+    nbl = kspipe.report(rep, levents, lbad, {"sem"}, "c01l")
+    rep.evaluations += len(levents) * 8
+    rep.distinct += len(levents)
+    rep.extra["lwe_behaviours"] = {"in_scope": ln_all, "run": len(levents), "rejected": nbl}
     rep.evaluations += len(steps) * 8
     rep.distinct += kept
     ops = {}
@@ -28,4 +35,4 @@ def run(rep, tier):
         rep.sample({k: e[k] for k in ("op", "sz", "koff", "rk", "pb", "ps", "pc")} | {"pt": e["outs"][0]["pt"]})
     log("[C01] %d programs, %d steps, %d rejected (sem)" % (kept, len(steps), nb))
     rep.assumptions += ["secret read through hook H5; phases computed by TLC", "N=8 (16 thorough), radices 2..6: realistic sizes are covered by C10's cross-back-end agreement only",
-                        "LWE encryption paths pending"]
+                        "LWE: N_lwe in {1,5,16} (thorough up to 33), radices 3/5 (2..6), same radix for plaintext and ciphertext"]
